@@ -200,13 +200,21 @@ func runSeqHooked(plan *Plan, tape *simrt.Tape, setup func(x *seqExec), post fun
 			if x.viol != nil {
 				return
 			}
+			// quiesce: a forced flush only covers the head file; rotated files are flushed by their
+			// own goroutines, which the scheduler may have postponed until now
+			g.W.WaitIdle()
 			g.H.VerifFlush(true)
+			g.W.WaitIdle()
 			x.verifyAll("final-flushed", false)
 			if x.viol != nil {
 				return
 			}
+			g.W.WaitIdle()
 			x.checkDataFiles()
 			if x.viol != nil {
+				if fsTrace {
+					fmt.Fprintf(os.Stderr, "LIVE at final check: %v unflushed=%d\n", g.W.LiveTasks(), g.H.VerifUnflushed(plan.Cfg.Served[0]))
+				}
 				return
 			}
 			if x.finalHook != nil {
@@ -273,6 +281,10 @@ func runSeqHooked(plan *Plan, tape *simrt.Tape, setup func(x *seqExec), post fun
 	}
 	if post != nil {
 		post(x)
+	}
+	if x.viol != nil && x.viol.Rule == "INCONCLUSIVE" {
+		out.Inconclusive = x.viol.Msg
+		x.viol = nil
 	}
 	if x.viol == nil && x.knownViol != nil {
 		x.viol = x.knownViol
@@ -416,6 +428,10 @@ func (x *seqExec) exec(op Op) {
 
 func (x *seqExec) reply(cmd []byte) Reply {
 	r := x.c.Do(cmd)
+	if r.Budget {
+		x.fail("INCONCLUSIVE", "reply-step-budget")
+		return r
+	}
 	if r.Malformed != "" {
 		x.fail("R-proto-malformed-reply", r.String())
 	} else if r.Closed {
